@@ -2,7 +2,7 @@ SPECIFICATION Spec
 CONSTANTS
   Conns = {c1, c2}
   Outsiders = {}
-  MaxNonce = 1
+  MaxNonce = 0
 INVARIANTS
   NoLoserStillListed
 CHECK_DEADLOCK FALSE
